@@ -55,7 +55,7 @@ def make_doc(r):
     fmt = r.choice(["csv", "csv", "csvlite", "tsv", "json", "json", "jsonl", "dkvp", "nidx", "xtab", "pprint", "pprint_barred", "markdown", "usv", "asv",
                     "yaml", "recutils", "dcf", "csv_opts", "dkvp_opts", "nidx_opts", "dkvpx", "dkvpx", "pprint_barred", "tsv", "csvlite"])
     n = r.choice([1, 2, 3, 6, 15])
-    safe = fmt not in ("csv", "json", "jsonl", "csv_opts", "yaml", "dkvpx")
+    safe = fmt not in ("csv", "json", "jsonl", "csv_opts", "yaml", "dkvpx", "tsv")
     recs = records(r, n, safe)
     flags = []
     if fmt in ("csv", "csv_opts", "csvlite"):
